@@ -159,8 +159,13 @@ func init() {
 				}
 			}
 			// part 2
-			for _, extra := range [][]Label{{}, {{"c", 1, ""}}, {{"c", 1, ""}, {"d", 1, ""}}} {
+			for ei, extra := range [][]Label{{}, {{"c", 1, ""}}, {{"c", 1, ""}, {"d", 1, ""}}, {}} {
 				ins := append([]Label{{n, 1, ""}}, extra...)
+				if ei == 3 {
+					// the same-named input is supplied with a subtype (NamedSubtype); the
+					// name-taking converter declares it without
+					ins = []Label{{n, 1, "x"}}
+				}
 				for _, cf := range cforms {
 					out := Label{"", 0, ""}
 					if cf.on {
